@@ -16,8 +16,10 @@ import (
 // constructor that panics or returns an error is reported as an error exposing the panic value
 // or wrapping the constructor's own error ... through every Build" - the limit having elapsed in
 // the meantime does not make the constructor's error disappear. (No verdict depends on timing:
-// the constructor sleeps 25x the limit before it fails, so the limit HAS elapsed; the control
-// cases run the same constructors without a limit and with a generous one.)
+// the constructor sleeps four times the limit before it fails, so the limit HAS elapsed when it
+// fails; a Build that ran out of time before it even reached the constructor - an overloaded
+// machine - is not judged at all; the control cases run the same constructors without a limit and
+// with a generous one.)
 
 type btA struct{}
 type btB struct{}
@@ -27,12 +29,14 @@ var errBtBoom = errors.New("build-timeout fixture: the constructor's own error")
 type btWorld struct {
 	sleep time.Duration
 	panic bool
+	ran   bool // the failing constructor was invoked
 }
 
 var btCur *btWorld
 
 func btNewA() *btA { return &btA{} }
 func btNewB(*btA) (*btB, error) {
+	btCur.ran = true
 	time.Sleep(btCur.sleep)
 	if btCur.panic {
 		panic(errBtBoom)
@@ -63,8 +67,8 @@ func RunBuildTimeLimit(c *eng.Ctx, next func() (int, bool)) {
 				var opts *godi.ProviderOptions
 				switch limit {
 				case "limit-elapsed":
-					opts = &godi.ProviderOptions{BuildTimeout: 2 * time.Millisecond}
-					btCur.sleep = 50 * time.Millisecond
+					opts = &godi.ProviderOptions{BuildTimeout: 60 * time.Millisecond}
+					btCur.sleep = 240 * time.Millisecond
 				case "generous-limit":
 					opts = &godi.ProviderOptions{BuildTimeout: time.Hour}
 				case "options-without-limit":
@@ -79,6 +83,15 @@ func RunBuildTimeLimit(c *eng.Ctx, next func() (int, bool)) {
 				}
 				prov, err := coll.BuildWithOptions(opts)
 				c.R.Count("build_time_limit_cases", 1)
+				if !btCur.ran {
+					// the limit elapsed before Build got to the constructor (an overloaded machine):
+					// no constructor failed, nothing to judge
+					c.R.Count("build_time_limit_elapsed_before_the_constructor", 1)
+					if prov != nil {
+						_ = prov.Close()
+					}
+					return
+				}
 				if err == nil {
 					viol("ctor-"+kind+"-swallowed", "Build succeeded although a singleton constructor failed")
 					_ = prov.Close()
